@@ -670,7 +670,7 @@ func init() {
 							}
 							// the printed name of a type identifies it only up to its spelling: two function-local
 							// types, or models.User from two packages called models, print alike
-							if n := calleeName(&x.Call); strings.HasSuffix(n, "reflect.Type.String") || strings.HasSuffix(n, "reflect.Type.Name") || strings.HasSuffix(n, "reflect.Type.Kind") {
+							if n := calleeName(&x.Call); strings.HasSuffix(n, "reflect.Type.String") || strings.HasSuffix(n, "reflect.Type.Name") || strings.HasSuffix(n, "reflect.Type.Kind") || strings.HasSuffix(n, "reflect.Type.PkgPath") {
 								next = n
 							}
 							for _, a := range callArgs(&x.Call) {
@@ -730,6 +730,16 @@ func init() {
 								if al, ok := fa.X.(*ssa.Alloc); ok {
 									for _, st := range storesToCell(al) {
 										walk(st.Val, depth+1)
+									}
+								}
+							}
+						case *ssa.MakeMap:
+							// a map made here and filled entry by entry: everything that is put into it
+							if refs := x.Referrers(); refs != nil {
+								for _, r := range *refs {
+									if mu, ok := r.(*ssa.MapUpdate); ok && mu.Map == ssa.Value(x) {
+										walk(mu.Key, depth+1)
+										walk(mu.Value, depth+1)
 									}
 								}
 							}
